@@ -20,7 +20,7 @@ from .values import (Val, INT, BOOL, REAL, STR, TD, NONE, CONC, IntS, BoolS, Rea
                      NoneS, OptS, TupS, RecS, SeqS, EnumS, UnionS, MapS, DictS, ConcS, VNONE)
 from .objects import (Closure, LocalClass, PyMap, Obj, ExcInst, MatchObj, BoundMethod,
                       BuiltinMethod, GenExp, RangeObj, EnumerateObj, FilterObj, IsliceObj,
-                      ItemsObj, RxSym, PYINT, DECOK, SymbolicFile)
+                      ItemsObj, RxSym, PYINT, DECOK, SymbolicFile, SuperProxy)
 from .state import State, Env, OutOfSubset, BindingLost
 from .source import key_of_function, class_key, live_module
 from .engine import DeadPath, SpecFn, Outcome, FuncCtx, exc_class
@@ -232,6 +232,8 @@ class CallsMixin:
         if n == "dict.get" and isinstance(sv.shape, DictS):
             return self.call_builtin_method(BuiltinMethod(sv.d[0], "dict.get"), args, kwargs, st)
         if n == "dict.items":
+            if isinstance(sv.shape, MapS):
+                raise OutOfSubset("iteration over a map without insertion order")
             return V.vconc(ItemsObj(sv))
         if n == "dict.keys":
             return V.vconc(_Opaque("dict-keys"))
@@ -266,6 +268,25 @@ class CallsMixin:
             self.ctx.notes.append(f"rx-fact used: {rx.pattern!r} group {g} {kind}")
 
     # ------------------------------------------------------------------ builtins
+    def b_super(self, args, kwargs, st):
+        if args:
+            raise OutOfSubset("super(...) with arguments")
+        fq = self.fctx.qualname
+        if "." not in fq:
+            raise OutOfSubset("super() outside a method")
+        clsq = fq.rsplit(".", 1)[0]
+        cls = self.live_class(f"{self.fctx.module}:{clsq}")
+        selfv = st.lookup("self")
+        if selfv is None:
+            raise OutOfSubset("super() without self")
+        return V.vconc(SuperProxy(cls, selfv))
+
+    def b_type(self, args, kwargs, st):
+        v = args[0]
+        if isinstance(v.shape, RecS):
+            return V.vconc(self.live_class(v.shape.key))
+        raise OutOfSubset("type() of " + repr(v.shape))
+
     def b_len(self, args, kwargs, st):
         v = self.as_sym(args[0])
         s = v.shape
@@ -373,6 +394,8 @@ class CallsMixin:
             return z3.BoolVal(sub(tuple))
         if isinstance(s, (RecS, EnumS)):
             return z3.BoolVal(sub(self.live_class(s.key)))
+        if isinstance(s, (MapS, DictS)):
+            return z3.BoolVal(sub(dict))
         if isinstance(s, OptS):
             return z3.If(v.d[0], z3.BoolVal(sub(type(None))), self.isinstance_cond(v.d[1], types))
         if isinstance(s, UnionS):
@@ -555,6 +578,9 @@ class CallsMixin:
                 return list(itv.d[1][tups[0]].d)
         if isinstance(itv.shape, TupS):
             return list(itv.d)
+        if isinstance(itv.shape, ConcS) and isinstance(itv.d, ItemsObj) and isinstance(itv.d.mapval.shape, ConcS) \
+                and isinstance(itv.d.mapval.d, PyMap) and not itv.d.mapval.d.present and itv.d.mapval.d.default is None:
+            return [V.vtup([V.vstr(k) if isinstance(k, str) else V.vconc(k), val]) for k, val in itv.d.mapval.d.items.items()]
         if isinstance(itv.shape, ConcS) and isinstance(itv.d, (tuple, list)):
             return [self.lift(x) for x in itv.d]
         if isinstance(itv.shape, SeqS):
